@@ -67,3 +67,45 @@ Definition all_added_at (p : N) (ops : list op) : Prop :=
 (* every transaction reported carries the level's price *)
 Definition ev_tx_price (p : N) (e : event) : Prop :=
   match e with (_, OutMatch r) => Forall (fun t => tx_price t = p) (r_txs r) | _ => True end.
+
+(* ------------------------------------------------------------------ *)
+(* Histories WITH rebuilds.  A rebuild (from the level's own snapshot or serialized form)
+   creates a new level object with fresh statistics, so at any point the statistics
+   describe the events SINCE THE LAST REBUILD, on top of what that rebuild itself recorded:
+   nothing for [ORebuildSnap] (from_snapshot starts at zero), one [add_order] per listed
+   order for [ORebuildData] (from_data = new + add_order for each listed order).
+   The three functions below cut a history at its last rebuild event:
+       h = before_rebuild h ++ since_rebuild h,
+   [since_rebuild h] contains no rebuild, [before_rebuild h] is empty or ends with the last
+   rebuild event (Proofs/StatsRebuildProofs.v: cut_rebuild_app, since_rebuild_clean,
+   before_rebuild_last; without a rebuild [since_rebuild h = h] and [rebuild_base h = 0]). *)
+Definition ev_rebuild (e : event) : bool := is_rebuild (fst e).
+Definition has_rebuild (h : hist) : bool := existsb ev_rebuild h.
+
+(* the events after the last rebuild (the whole history when there is none) *)
+Fixpoint since_rebuild (h : hist) : hist :=
+  match h with
+  | [] => []
+  | e :: h' => if has_rebuild h' then since_rebuild h' else if ev_rebuild e then h' else e :: h'
+  end.
+
+(* the events up to and including the last rebuild (empty when there is none) *)
+Fixpoint before_rebuild (h : hist) : hist :=
+  match h with
+  | [] => []
+  | e :: h' => if has_rebuild h' then e :: before_rebuild h' else if ev_rebuild e then [e] else []
+  end.
+
+(* the number of orders a rebuild operation hands to add_order *)
+Definition op_readded (o : op) : N :=
+  match o with ORebuildData listing => N.of_nat (length listing) | _ => 0 end.
+
+(* what the LAST rebuild of the history recorded as "orders added" (0 when there is none) *)
+Fixpoint rebuild_base (h : hist) : N :=
+  match h with
+  | [] => 0
+  | e :: h' => if has_rebuild h' then rebuild_base h' else op_readded (fst e)
+  end.
+
+(* the id -> price map after a stretch of history (rebuilds keep the resting orders, hence the map) *)
+Definition pm_after (pm : oid -> N) (h : hist) : oid -> N := fold_left ev_pm h pm.
